@@ -150,11 +150,68 @@ def msg_of_event(ev, charset='latin1'):
     return mido.MetaMessage(t, time=d, **a)
 
 
-def midifile_of(fmt, division, tracks, charset='latin1'):
-    mid = mido.MidiFile(type=fmt, ticks_per_beat=division, charset=charset)
+ASSEMBLIES = ('ctor', 'append', 'extend', 'iadd', 'add', 'mul', 'slice', 'copy', 'insert', 'add_track', 'tracks_kw', 'setitem')
+
+
+def assemble_track(msgs, how, rng):
+    """The same messages, put into a MidiTrack the way a program might: every list operation MidiTrack offers."""
+    T = mido.MidiTrack
+    k = rng.randrange(len(msgs) + 1)
+    if how == 'append':
+        t = T()
+        for m in msgs:
+            t.append(m)
+    elif how == 'extend':
+        t = T()
+        t.extend(msgs[:k])
+        t.extend(iter(msgs[k:]))
+    elif how == 'iadd':
+        t = T(msgs[:k])
+        t += msgs[k:]
+    elif how == 'add':
+        t = T(msgs[:k]) + T(msgs[k:])
+    elif how == 'mul':
+        t = T(msgs) * 1
+    elif how == 'slice':
+        full = T([mido.Message('note_on')] + msgs + [mido.Message('note_off')])
+        t = full[1:-1]
+    elif how == 'copy':
+        src = T(msgs)
+        t = src.copy()
+        src.clear()
+    elif how == 'insert':
+        t = T()
+        for m in reversed(msgs):
+            t.insert(0, m)
+    elif how == 'setitem':
+        t = T(mido.Message('clock') for _ in msgs)
+        for i, m in enumerate(msgs):
+            t[i] = m
+    else:
+        t = T(msgs)
+    return t
+
+
+def midifile_of(fmt, division, tracks, charset='latin1', rng=None):
+    how = rng.choice(ASSEMBLIES) if rng is not None else 'ctor'
+    built = []
     for evs in tracks:
-        mid.tracks.append(mido.MidiTrack(msg_of_event(e, 'latin1' if charset not in ('latin1',) and any(
-            e[0] == 'meta' for e in evs) and not _decodable(evs, charset) else charset) for e in evs))
+        msgs = [msg_of_event(e, 'latin1' if charset not in ('latin1',) and any(
+            e[0] == 'meta' for e in evs) and not _decodable(evs, charset) else charset) for e in evs]
+        built.append(msgs)
+    if how == 'tracks_kw':
+        return mido.MidiFile(type=fmt, ticks_per_beat=division, charset=charset,
+                             tracks=[mido.MidiTrack(m) for m in built])
+    mid = mido.MidiFile(type=fmt, ticks_per_beat=division, charset=charset)
+    for msgs in built:
+        if how == 'add_track':
+            # add_track() puts a track_name event in front when a name is given; without a name it is an empty track
+            t = mid.add_track()
+            t.extend(msgs)
+        elif how == 'ctor':
+            mid.tracks.append(mido.MidiTrack(iter(msgs)))
+        else:
+            mid.tracks.append(assemble_track(msgs, how, rng))
     return mid
 
 
